@@ -184,6 +184,14 @@ def check(tier):
     if os.path.exists(corpus):
         texts += [json.loads(l)["text"] for l in open(corpus) if l.strip()]
     base = [S.gen_wellformed(rng, collide=0.0) for _ in range(25 if tier == "quick" else 400)]
+    # well-formed variations that are NOT defects: tokens declared but used nowhere, tokens used only in a directive
+    extras = ['UNUSED_A = "ua";', "UNUSED_B = /ub+/;", "UNUSED_C = $NUMBER;", 'ONLYPREC = "op";\n@left ONLYPREC;']
+    for i in range(len(base)):
+        if rng.random() < 0.5:
+            lines = [l for l in base[i].split("\n") if l.strip()]
+            for e in rng.sample(extras, rng.randint(1, 2)):
+                lines.insert(rng.randint(1, len(lines)), e)
+            base[i] = "\n".join(lines) + "\n"
     texts += base
     for b in base:
         for d in DEFECTS:                       # each defect alone
